@@ -649,7 +649,7 @@ def run_diagcheck(entries, workname, tlc_procs=4, tlc_workers=2):
         dp = os.path.join(work, 'diag%d.diags.ndjson' % ci)
         vlib.write_ndjson(dp, [diagparse.to_ids(diagparse.parse(e.diag), e.dump) for e in part])
         env['VERIF_DIAGS'] = dp
-        cfg = pipeline.write_cfg(work, 'diag%d' % ci, 'Spec', ['DiagReported', 'Summary'])
+        cfg = pipeline.write_cfg(work, 'diag%d' % ci, 'Spec', ['DiagReported', 'LexReported', 'Summary'])
         tasks.append((part, (lambda env=env, cfg=cfg, ci=ci: vlib.run_tlc('DiagCheck', cfg, env, '%s_diag%d' % (workname, ci), workers=tlc_workers, timeout=1500))))
     outs = vlib.run_parallel([t[1] for t in tasks])
     problems, sums, runs = {}, {}, []
@@ -661,6 +661,8 @@ def run_diagcheck(entries, workname, tlc_procs=4, tlc_workers=2):
         runs.append({'kind': 'diag', 'grammars': len(part), 'distinct': r.distinct, 'generated': r.generated, 'wall_s': round(r.wall, 1)})
         for d in r.lines.get('DIAG', []):
             problems[d['g']] = d
+        for d in r.lines.get('DIAGLEX', []):
+            problems.setdefault(d['g'], d)
         for d in r.lines.get('DIAGSUM', []):
             sums[d['g']] = d
     return live, problems, sums, runs, st, tr
@@ -693,6 +695,10 @@ def check_C11(tier, seed):
             entries.append(pipeline.host_entry(g, 2))
         except ValueError:
             pass
+    import lx as lxl
+    fams = [ts for ts in lxl.FAMILIES if not any(t[0] == 'C' and t[1] == ord('.') for t in ts)]      # a term printed as "." is indistinguishable from the item dot
+    for i, ts in enumerate(fams[:5 if tier == 'quick' else 17]):          # richer LEXICAL ANALYZER sections (string / regex terms)
+        entries.append(pipeline.lex_entry('c11lex%d' % i, ts))
     live, problems, sums, runs, st, tr = run_diagcheck(entries, 'C11', tlc_procs=4 if tier == 'quick' else 8)
     by_gid = {e.gid: e for e in live}
     per = collections.Counter()
